@@ -144,6 +144,10 @@ Record alive_core (c : sconn) (ec : N) (s : stream) (d : hstate) : Prop := mkAli
 }.
 Definition alive c ec s d : Prop := alive_core c ec s d /\ sc_discardID c <> sid.
 
+(* what has been sent since c0: RST_STREAM(code) for the stream, its release, and window updates *)
+Definition dout (code : N) c : Prop :=
+  exists l, sc_out c = l ++ sc_out c0 /\ Forall (benign code) l /\ In (ORst sid code) l.
+
 (* the stream has been reset by the server: out of the table, remembered in the ring *)
 Record dead (c : sconn) (ec : N) (code : N) (d : hstate) : Prop := mkDead {
   de_base : base c ec;
@@ -151,8 +155,7 @@ Record dead (c : sconn) (ec : N) (code : N) (d : hstate) : Prop := mkDead {
   de_ring : ring_find c sid = Some true;
   de_dec : sc_dec c = d;
   de_open : sc_open c = sc_open c0;
-  de_out : out_ok (benign code) c;
-  de_rst : In (ORst sid code) (sc_out c)
+  de_out : dout code c
 }.
 
 (* the stream loop has ended *)
@@ -252,10 +255,10 @@ Proof.
     + rewrite al_oldest0. apply (rd_oldest _ _ _ _ R).
   - unfold kill. sc_rw. assumption.
   - rewrite kill_open by assumption. lia.
-  - destruct al_out0 as (l & E & F). exists (ORelease sid true :: ORst sid code :: l). split.
+  - destruct al_out0 as (l & E & F). exists (ORelease sid true :: ORst sid code :: l). split; [|split].
     + rewrite OUT, E. reflexivity.
     + constructor; [cbn; auto|]. constructor; [cbn; auto|]. eapply Forall_impl; [|exact F]. apply winupd_benign.
-  - rewrite OUT. right. left. reflexivity.
+    + right. left. reflexivity.
 Qed.
 
 (* the discard registers after kill *)
@@ -601,10 +604,10 @@ Lemma dead_same c c' ec code d d' :
   sc_initWin c' = sc_initWin c -> sc_clientWindow c' = sc_clientWindow c -> sc_closeRef c' = sc_closeRef c ->
   sc_closer c' = sc_closer c -> sc_now c' = sc_now c ->
   sc_strms c' = sc_strms c -> sc_ring c' = sc_ring c -> sc_dec c' = d' -> sc_open c' = sc_open c ->
-  (out_ok (benign code) c -> out_ok (benign code) c') -> (forall o, In o (sc_out c) -> In o (sc_out c')) ->
+  (dout code c -> dout code c') ->
   dead c ec code d -> dead c' ec code d'.
 Proof.
-  intros. destruct H20. constructor; try congruence; auto.
+  intros. destruct H19. constructor; try congruence; auto.
   - eapply base_same; [..|eassumption]; assumption.
   - rewrite ring_find_eq in *. congruence.
 Qed.
@@ -616,15 +619,17 @@ Lemma dead_credit c ec code d n : dead c ec code d -> dead (credit_conn_window c
 Proof.
   intro D. eapply dead_same; [..|exact D]; sc_rw; try reflexivity.
   - apply (de_dec _ _ _ _ D).
-  - apply credit_quiet; [intros; exact I | destruct D as [[]]; assumption].
-  - unfold credit_conn_window. destruct (n <=? 0)%Z; [auto|]. destruct (_ <? _)%Z; [|auto].
-    unfold write_window_update. intros o Ho. apply emit_incl. exact Ho.
+  - intros (l & E & F & I). destruct D as [[] _ _ _ _ _].
+    unfold credit_conn_window. destruct (n <=? 0)%Z; [exists l; auto|]. destruct (_ <? _)%Z; [|exists l; auto].
+    unfold write_window_update. rewrite (emit_eq _ _ _). sc_cbn. rewrite sc_out_emit. sc_cbn. rewrite b_wl0, b_sl0.
+    exists (OWinUpd 0 (cf_maxWindow cfg - (sc_currentWindow c - n)) :: l). split; [rewrite E; reflexivity|].
+    split; [constructor; [exact Logic.I | exact F] | right; exact I].
 Qed.
 
 Lemma gone_brk_dead c ec code d x cd :
   dead c ec code d -> gone (fst (brk (write_goaway c x cd))).
 Proof.
-  intros []. destruct de_base0. split; [reflexivity|]. destruct de_out0 as (l & E & F).
+  intros []. destruct de_base0. split; [reflexivity|]. destruct de_out0 as (l & E & F & _).
   exists (OExit 1 0 :: OGoAway (sc_lastID c) cd :: l). split.
   - rewrite sc_out_brk, sc_out_write_goaway, b_wl0, b_sl0, E. reflexivity.
   - constructor; [intros rq; discriminate|]. constructor; [intros rq; discriminate|].
@@ -674,4 +679,4 @@ End Phase.
 Arguments PhBlock {hstate}. Arguments PhBody {hstate}. Arguments PhDisp {hstate}. Arguments PhDeadBlock {hstate}.
 Arguments PhDead {hstate}. Arguments PhGone {hstate}.
 Arguments holds {hstate}. Arguments alive {hstate}. Arguments alive_core {hstate}. Arguments dead {hstate}.
-Arguments gone {hstate}. Arguments base {hstate}. Arguments rejected {hstate}. Arguments out_ok {hstate}.
+Arguments gone {hstate}. Arguments dout {hstate}. Arguments base {hstate}. Arguments rejected {hstate}. Arguments out_ok {hstate}.
